@@ -17,16 +17,23 @@
    forest), C04_wrap_text_leaf (X = name{text with or without `$#`}, every line list),
    C04_placeholder_total, C04_group_bracket_text, C04_text_not_reparsed + C04_lines_keep_characters +
    C04_push_string_verbatim (stream), C04_children_after_text (formatter).
-   _partial: C04_wrap_implicit_partial is parametric in how X converts and assumes X leaves the converter
-   state alone (no nested repeater inside X); C04_quoted_scanner_partial is the scanner inside quoted
-   attribute values only -- the composition for attribute positions (quoted / unquoted / expression
-   values) and text on elements inside larger statements (beyond the parser block C04_text_block) is
-   covered by the model/implementation correspondence and the oracle, not by a theorem. *)
+   Attribute positions (proofs/AttrText*.v): C04_attr_value_literal (front end on name[n...] for every
+   value form), C04_quoted_value_verbatim, C04_group_bracket_attr (`(` `)` in attribute values end to end).
+   The wrap clause with an implicit repeater is proved in full in props/C04Wrap.v (C04_wrap_implicit: every
+   token tree -- nested explicit and implicit repeaters, `$#` at any depth --, every line list, every budget,
+   against the pure spec [unroll_w]); C04_wrap_implicit_parametric below (formerly C04_wrap_implicit_partial)
+   is the earlier form of it, parametric in how X converts, kept as a theorem.
+   C04_quoted_scanner_partial is the scanner lemma that C04_attr_value_literal builds on (kept).
+   C04_text_with_attributes / C04_expand_text_element: text on an element that also carries `#id`, `.class`,
+   `[...]` (`a.c[b=1]{t}`), front end and whole pipeline.
+   Not covered by a theorem: `$` numbering / fields inside text and attribute values, text written
+   between the attribute parts (`a{t}.c`), text under the haml / pug / slim formatters -- these are
+   covered by the model/implementation correspondence and the oracle. *)
 From Coq Require Import String.
 From Emmet Require Import lib.Base lib.StrLit model.MarkupTokenizer model.MarkupParser model.MarkupConvert
      model.MarkupResolve proofs.ParserSpine proofs.TextSpec proofs.TextProofs proofs.TextParse proofs.TextLiteral
      proofs.TextConvert proofs.TextForest proofs.TextWrap proofs.TextWrapLeaf model.OutStream model.FormatHtml
-     proofs.TextStream proofs.TextHtml proofs.TextPlain.
+     proofs.TextStream proofs.TextHtml proofs.TextPlain proofs.AttrText proofs.AttrTextParse proofs.AttrTextConvert proofs.AttrProofs model.MarkupExpand proofs.AttrTextExpand.
 
 (* text_literal.  For EVERY payload T whose braces balance modulo escapes and whose `$` are escaped --
    operators, brackets, quotes, `*`, white space, line breaks, unicode included -- the front end
@@ -83,6 +90,94 @@ Theorem C04_group_bracket_text :
 Proof. exact group_bracket_text. Qed.
 Print Assumptions C04_group_bracket_text.
 
+(* attr_value_literal.  Text in ATTRIBUTE position, end to end (tokenize, parse, convert) on
+   `name[n...]`, for every way a value is written ([sval], proofs/AttrText.v):
+     n        n=       -> no value                                  (raw)
+     n=v      v a non-empty run over every character except  \ $ = white space quotes [ ] { }  with
+              parentheses allowed where they balance                 -> the text v as written (raw)
+     n='q'    n="q"    q ANY text in which that quote, `$` and `\` occur only escaped by `\`
+                                                                    -> q with escapes resolved (single / double)
+     n={e}    e any text whose braces balance modulo escapes, `$` escaped
+                                                                    -> e with escapes resolved (expression)
+   An empty quoted / braced payload gives the empty value list. *)
+Theorem C04_attr_value_literal :
+  forall (jsx : bool) (env : cenv) (max_repeat : option N) (name n : str) (v : sval),
+    word_ok name -> (jsx = false \/ head_upper name = false) -> plain_attr_name n -> sval_ok v ->
+    ce_text env = WNone ->
+    parse_abbr jsx env max_repeat (name ++ c_lbrack :: n ++ val_text v ++ [c_rbrack]) =
+      Ok [ANode (Some name) None None
+                (Some [mkAAttr (Some n) (written_value v) (written_type v) false false false]) [] false].
+Proof. exact attr_value_literal. Qed.
+Print Assumptions C04_attr_value_literal.
+
+(* ... in particular a quoted value without `\`, `$` and that quote -- brackets, braces, operators, `*`,
+   `(`, `)`, the other quote, white space, line breaks, unicode all free -- is the text between the
+   quotes character for character *)
+Theorem C04_quoted_value_verbatim :
+  forall (jsx : bool) (env : cenv) (max_repeat : option N) (name n : str) (single : bool) (q : str),
+    word_ok name -> (jsx = false \/ head_upper name = false) -> plain_attr_name n ->
+    qverbatim (qchar single) q = true -> ce_text env = WNone ->
+    parse_abbr jsx env max_repeat (name ++ c_lbrack :: n ++ c_eq :: qchar single :: q ++ [qchar single; c_rbrack]) =
+      Ok [ANode (Some name) None None
+                (Some [mkAAttr (Some n) (Some (match q with [] => [] | _ => [VStr q] end))
+                               (if single then VSingle else VDouble) false false false]) [] false].
+Proof. exact quoted_value_verbatim. Qed.
+Print Assumptions C04_quoted_value_verbatim.
+
+(* group_bracket_text END TO END: `(` / `)` inside an unquoted attribute value (`a[b=(c)]`, `a[on=f(1)(2)]`,
+   any nesting that balances) come back as themselves: the value is the text as written *)
+Theorem C04_group_bracket_attr :
+  forall (jsx : bool) (env : cenv) (max_repeat : option N) (name n v : str),
+    word_ok name -> (jsx = false \/ head_upper name = false) -> plain_attr_name n -> uq_ok v ->
+    ce_text env = WNone ->
+    parse_abbr jsx env max_repeat (name ++ c_lbrack :: n ++ c_eq :: v ++ [c_rbrack]) =
+      Ok [ANode (Some name) None None (Some [mkAAttr (Some n) (Some [VStr v]) VRaw false false false]) [] false].
+Proof. exact group_bracket_attr. Qed.
+Print Assumptions C04_group_bracket_attr.
+
+(* text_with_attributes.  C04_text_literal for elements that also carry attributes: for EVERY element of
+   the written grammar of proofs/AttrText.v -- name, any `#id` / `.class` / `[ ... ]` parts, then `{T}`
+   with T any balanced payload -- the front end gives the ONE node whose value is the payload with
+   escapes resolved, character for character ([elem_text_value]), beside the written attributes. *)
+Theorem C04_text_with_attributes :
+  forall (jsx : bool) (env : cenv) (max_repeat : option N) (e : selem),
+    selem_ok e -> jsx_ok jsx e -> ce_text env = WNone ->
+    parse_abbr jsx env max_repeat (elem_text e) =
+      Ok [ANode (Some (se_name e)) (elem_text_value e) None (attrs_opt (written_mentions e)) [] (se_close e)].
+Proof. exact element_attributes_text. Qed.
+Print Assumptions C04_text_with_attributes.
+
+(* ... and through the whole pipeline (markup.parse + HTML formatter): expand writes
+   <name attr...>TEXT</name>  with TEXT = the payload, escapes resolved, nothing else between the tags
+   ([leaf_tail c tag sc v] = `>` ++ text of v ++ `</tag>` whenever the element has a non-empty text, also
+   when it carries the self-closing mark `/`: C04_leaf_tail_text).
+   Hypotheses as in C03_expand_element_text (BEM off: [mc_bem m = false]); [value_inline]: the text has no line break and does not
+   start with a block-level tag (such text is laid out on its own lines: C12). *)
+Theorem C04_expand_text_element :
+  forall (x : xconfig) (e : selem),
+    let m := xc_m x in
+    let c := xc_o x in
+    selem_ok e -> jsx_ok (mc_jsx m) e -> mc_text m = WNone ->
+    assoc_str (se_name e) (mc_snippets m) = None -> match_lorem (se_name e) = LNo ->
+    xsl_rule_applies m e = false -> mc_bem m = false ->
+    html_family (mc_syntax m) -> oc_comment_enabled c = false ->
+    oc_format_leaf c = false -> mem_str (se_name e) (oc_format_force c) = false ->
+    let attrs := merge_spec (mc_reverse_attrs m) [] (written_mentions e) in
+    Forall (fun a => form_nl_free (attr_out_spec c a)) attrs ->
+    value_inline c (elem_text_value e) ->
+    expand_markup_str x (elem_text e) =
+      Ok (c_lt :: tag_name c (se_name e) ++ attrs_text_out c attrs
+          ++ leaf_tail c (tag_name c (se_name e)) (se_close e) (elem_text_value e)).
+Proof. exact expand_element_text. Qed.
+Print Assumptions C04_expand_text_element.
+
+Theorem C04_leaf_tail_text :
+  forall (c : oconfig) (tag : str) (sc : bool) (v0 : vtok) (v : list vtok),
+    leaf_tail c tag sc (Some (v0 :: v)) =
+      [c_gt] ++ concat (map tok_text (v0 :: v)) ++ [c_lt; c_slash] ++ tag ++ [c_gt].
+Proof. exact leaf_tail_text. Qed.
+Print Assumptions C04_leaf_tail_text.
+
 (* placeholder_total: `$#` always yields a string -- the line of the closest implicit repeater, the
    whole text when there is none -- never None / an internal error *)
 Theorem C04_placeholder_total :
@@ -97,10 +192,10 @@ Print Assumptions C04_placeholder_total.
    yields), otherwise ([ph = false]) the line is appended once to the deepest last element of the copy.
    How X itself converts under counter j is a parameter ([copy j] may be ANY forest, [copy_spec] ties it
    to the converter); the guard hypothesis says maxRepeat does not cut the copies short (that is C02).
-   _partial: [copy_spec] asks that converting X leaves the converter state alone apart from recording a
-   `$#`; this holds for X without nested repeaters (which consume the repeat budget) -- the general
-   case is covered by the correspondence and the oracle only. *)
-Theorem C04_wrap_implicit_partial :
+   [copy_spec] asks that converting X leaves the converter state alone apart from recording a `$#`; this
+   holds for X without nested repeaters (which consume the repeat budget).  The general case -- X any
+   token tree -- is C04_wrap_implicit in props/C04Wrap.v (this one used to carry the suffix _partial). *)
+Theorem C04_wrap_implicit_parametric :
   forall (env : cenv) (mr : option N) (node : tnode) (r0 : rep) (lines : list str) (ph : bool)
          (copy : nat -> list anode),
     ce_text env = WList lines ->
@@ -111,7 +206,7 @@ Theorem C04_wrap_implicit_partial :
     (Z.of_nat (length L) <= match mr with Some m => Z.of_N m | None => 1000000 end)%Z ->
     convert env mr [node] = Ok (concat (map (piece ph L copy) (seq 0 (length L)))).
 Proof. exact wrap_implicit_convert. Qed.
-Print Assumptions C04_wrap_implicit_partial.
+Print Assumptions C04_wrap_implicit_parametric.
 
 (* wrap_plain.  For EVERY abbreviation tree without `$#` and without an implicit repeater ([quiet_all]:
    any nesting, groups, explicit repeaters, numbering, attributes) and EVERY text (one string or a list
@@ -211,6 +306,35 @@ Example C04_nonvacuous :
   parse_abbr false (mkCenv WNone [] false) None (S "p{ *>\}{+}}") =
     Ok [ANode (Some (S "p")) (Some [VStr (S " *>}{+}")]) None None [] false].
 Proof. split; [split; [discriminate|repeat constructor]|split; vm_compute; reflexivity]. Qed.
+
+(* non-vacuity of the attribute-position theorems: a[b=(c)] and a quoted value full of syntax *)
+Example C04_attr_nonvacuous :
+  word_ok (S "a") /\ plain_attr_name (S "b") /\ uq_ok (S "(c)") /\
+  qverbatim c_dquote (S "x>y*3 [(z)] {' +") = true /\
+  parse_abbr false (mkCenv WNone [] false) None (S "a[b=(c)]") =
+    Ok [ANode (Some (S "a")) None None
+              (Some [mkAAttr (Some (S "b")) (Some [VStr (S "(c)")]) VRaw false false false]) [] false].
+Proof.
+  split; [split; [discriminate|repeat constructor]|].
+  split; [split; [discriminate|repeat split]|].
+  split; [split; [discriminate|split; reflexivity]|].
+  split; vm_compute; reflexivity.
+Qed.
+
+(* non-vacuity of text_with_attributes / expand: p.c[t=1]{a>b*3 \{x\} (y)}/  (the `/` mark does not drop the text) *)
+Example C04_text_attr_nonvacuous :
+  let x := mkX (mkMConfig (S "html") [] [] WNone None None false None [] false false false [] [] None)
+               (mkOconfig (mkOfmt [] [] []) [] [] (S "double") true false [] [] 0 false [] (S "html") [] false [] [] []
+                          false None None) in
+  let e := mkSElem (S "p") [PClass 0 (S "c"); PSet [] (spaced [mkSAttr false (S "t") false (SUnq (S "1"))])]
+                   (Some (S "a>b*3 \{x\} (y)")) true in
+  selem_ok e /\ value_inline (xc_o x) (elem_text_value e) /\
+  elem_text e = S "p.c[t=1]{a>b*3 \{x\} (y)}/" /\
+  expand_markup_str x (elem_text e) = Ok (S "<p class=""c"" t=""1"">a>b*3 {x} (y)</p>").
+Proof.
+  cbv zeta. split; [cbn; grammar_ok|].
+  split; [vm_compute; repeat constructor|]. split; vm_compute; reflexivity.
+Qed.
 
 (* non-vacuity of the wrap theorems: `li{[$#]}*` over lines that look like syntax, with a blank line *)
 Example C04_wrap_nonvacuous :
